@@ -76,7 +76,7 @@ func builtinArrayConcat(call FunctionCall) Value {
 					if obj.hasProperty(name) {
 						valueArray = append(valueArray, obj.get(name))
 					} else {
-						valueArray = append(valueArray, Value{})
+						valueArray = append(valueArray, emptyValue) // a hole stays a hole
 					}
 				}
 				continue
@@ -179,6 +179,8 @@ func builtinArraySplice(call FunctionCall) Value {
 		indexString := arrayIndexToString(start + index)
 		if thisObject.hasProperty(indexString) {
 			valueArray[index] = thisObject.get(indexString)
+		} else {
+			valueArray[index] = emptyValue // a hole stays a hole
 		}
 	}
 
@@ -261,6 +263,8 @@ func builtinArraySlice(call FunctionCall) Value {
 		from := arrayIndexToString(index + start)
 		if thisObject.hasProperty(from) {
 			sliceValueArray[index] = thisObject.get(from)
+		} else {
+			sliceValueArray[index] = emptyValue // a hole stays a hole
 		}
 	}
 
@@ -591,7 +595,7 @@ func builtinArrayMap(call FunctionCall) Value {
 			if key := arrayIndexToString(index); thisObject.hasProperty(key) {
 				values[index] = iterator.call(call.runtime, callThis, thisObject.get(key), index, this)
 			} else {
-				values[index] = Value{}
+				values[index] = emptyValue // a hole stays a hole
 			}
 		}
 		return objectValue(call.runtime.newArrayOf(values))
